@@ -112,6 +112,26 @@ func classifyTxnErr(err error) string {
 
 func hexs(b []byte) string { return corr.Hex(b) }
 
+// callTimeout bounds every API call that can block (NewTransaction, Get, Commit, Close).
+const callTimeout = 4 * time.Second
+
+var hungCases int
+
+// watchdog runs f in its own goroutine and reports whether it returned in time.
+func watchdog(f func()) bool {
+	done := make(chan struct{})
+	go func() {
+		defer close(done)
+		f()
+	}()
+	select {
+	case <-done:
+		return true
+	case <-time.After(callTimeout):
+		return false
+	}
+}
+
 func dumpKey(db *NoKV.DB, key []byte) string {
 	// versions of the key from the internal iterator (newest first), values
 	// through GetVersionedEntry (which resolves value-log pointers).
@@ -155,12 +175,13 @@ func execTxn(c *corr.Ctx, d txnDesc) corr.Case {
 	db := openTxnDB(dir, d.Cfg)
 	closed := false
 	walBroken := false
+	hung := false
 	defer func() {
-		if !closed {
-			func() {
+		if !closed && !hung { // a DB with a call that never returned is abandoned
+			watchdog(func() {
 				defer func() { _ = recover() }() // closing over a broken WAL may fail; the directory is removed anyway
 				db.Close()
-			}()
+			})
 		}
 	}()
 	_ = walBroken
@@ -177,12 +198,22 @@ func execTxn(c *corr.Ctx, d txnDesc) corr.Case {
 		key := txnKeys[o.Key%len(txnKeys)]
 		switch o.Kind {
 		case "begin":
-			txns[o.ID] = db.NewTransaction(o.Update)
+			if !watchdog(func() { txns[o.ID] = db.NewTransaction(o.Update) }) {
+				hung = true
+				term, ob = fmt.Sprintf("Bh %d %s", o.ID, corr.Bool(o.Update)), "RHung"
+				break
+			}
 			live[o.ID] = true
 			term = fmt.Sprintf("B %d %s", o.ID, corr.Bool(o.Update))
 			ob = "RNil"
 		case "get":
-			it, err := txns[o.ID].Get(key)
+			var it *NoKV.Item
+			var err error
+			if !watchdog(func() { it, err = txns[o.ID].Get(key) }) {
+				hung = true
+				term, ob = fmt.Sprintf("G %d %s RHung", o.ID, hexs(key)), "RHung"
+				break
+			}
 			switch {
 			case err == nil:
 				ob = "(Vl " + hexs(it.Entry().Value) + ")"
@@ -202,12 +233,18 @@ func execTxn(c *corr.Ctx, d txnDesc) corr.Case {
 			term = fmt.Sprintf("D %d %s %s", o.ID, hexs(key), ob)
 		case "commit", "commitwith":
 			var err error
-			if o.Kind == "commit" {
-				err = txns[o.ID].Commit()
-			} else {
-				ch := make(chan error, 1)
-				txns[o.ID].CommitWith(func(e error) { ch <- e })
-				err = <-ch
+			if !watchdog(func() {
+				if o.Kind == "commit" {
+					err = txns[o.ID].Commit()
+				} else {
+					ch := make(chan error, 1)
+					txns[o.ID].CommitWith(func(e error) { ch <- e })
+					err = <-ch
+				}
+			}) {
+				hung = true
+				term, ob = fmt.Sprintf("C %d RHung", o.ID), "RHung"
+				break
 			}
 			ob = classifyTxnErr(err)
 			if err == nil {
@@ -260,17 +297,27 @@ func execTxn(c *corr.Ctx, d txnDesc) corr.Case {
 			walBroken = true
 			term, ob = "Fw", "RNil"
 		case "discard":
-			txns[o.ID].Discard()
+			if !watchdog(func() { txns[o.ID].Discard() }) {
+				hung = true
+				term, ob = fmt.Sprintf("Xh %d", o.ID), "RHung"
+				break
+			}
 			live[o.ID] = false
 			term = fmt.Sprintf("X %d", o.ID)
 			ob = "RNil"
 		case "close":
-			db.Close()
+			if !watchdog(func() { db.Close() }) {
+				hung = true
+				term, ob = "Clh", "RHung"
+				break
+			}
 			closed = true
 			term, ob = "Cl", "RNil"
 		case "reopen":
-			if !closed {
-				db.Close()
+			if !closed && !watchdog(func() { db.Close() }) {
+				hung = true
+				term, ob = "Roh", "RHung"
+				break
 			}
 			db = openTxnDB(dir, d.Cfg)
 			closed = false
@@ -286,6 +333,12 @@ func execTxn(c *corr.Ctx, d txnDesc) corr.Case {
 		}
 		terms = append(terms, term)
 		obs = append(obs, ob)
+		if hung {
+			// the call never returned: the case ends here and the DB is abandoned
+			hungCases++
+			c.Count("calls_hung")
+			break
+		}
 	}
 	var fps []string
 	for _, k := range txnKeys {
@@ -514,11 +567,11 @@ func runTxn(c *corr.Ctx) error {
 		c.Emit(execTxn(c, d))
 	}
 	n := c.Scale(200, 8000)
-	for i := 0; i < n; i++ {
+	for i := 0; i < n && hungCases < 4; i++ {
 		c.Emit(execTxn(c, genTxn(c.Rng, c.Prop)))
 	}
 	// apply failures in the commit worker (closed WAL), single and batched commits
-	for i, m := 0, c.Scale(30, 800); i < m; i++ {
+	for i, m := 0, c.Scale(30, 800); i < m && hungCases < 4; i++ {
 		c.Count("apply_failure_scenarios")
 		c.Emit(execTxn(c, genApplyFailure(c.Rng)))
 	}
